@@ -136,7 +136,7 @@ Qed.
 Lemma string_alias : forall fuel E root g,
   type_graph fuel E root = Ok g ->
   forall p preds m n body, In (p, preds) g -> ntype p = GAliasStr m n body ->
-    preds = [] /\ ncyc p = false /\ nunw p = GRef (remove_all (sapp m "."%string) body) (Some m).
+    preds = [] /\ ncyc p = false /\ nunw p = GRef (remove_lead (sapp m "."%string) body) (Some m).
 Proof.
   intros fuel E root g Hg p preds m n body Hin Ht. unfold type_graph in Hg.
   assert (Hshape : ncyc p = false /\ nunw p = unwrap (ntype p)).
